@@ -761,7 +761,11 @@ rt_prop("C02", ["task", "core", "bridge", "comb"],
         "END TO END for one request (with the parking invariant K2 of C07): response_reaches_exactly_the_asker — resolving the "
         "request a task is parked at is accepted, puts exactly the value into that request's channel, touches NO other channel, "
         "wakes exactly the asking task's waker, and the task's next poll continues with the value bound; "
-        "stream_item_reaches_exactly_the_consumer, stream_items_consumed_in_order. The "
+        "stream_item_reaches_exactly_the_consumer, stream_items_consumed_in_order. NO ALIASING through a poll (Lemmas/Refs*.lean, "
+        "induction over the poll, any fuel and world): poll_keeps_channels_unshared — if every request channel is referenced at most "
+        "once by a host-free block and its spawn queue before a poll, so it is afterwards, including requests created and tasks "
+        "spawned during the poll; poll_never_adopts_foreign_channel — a poll never makes a task wait on an existing channel it did "
+        "not already wait on. The "
         "whole-run uniqueness of delivery is covered by the correspondence (unique payloads, equal operations, every resolve result "
         "class compared) — oracle keys resolve-result-differs / delivery-differs.")
 rt_prop("C03", ["core", "bridge"],
